@@ -346,17 +346,24 @@ impl FormattingError {
 
     // (space, target)
     pub(crate) fn format_len(&self) -> (usize, usize) {
+        // The result addresses bytes of `line_buffer`: it has to stay inside the line
+        // and on character boundaries.
         match self.kind {
-            ErrorKind::LineOverflow(found, max) => (max, found - max),
+            ErrorKind::LineOverflow(_, max) => {
+                // `max` counts columns: skip that many characters. A tab is wider than
+                // one column, so the marked part may start late, but never past the end.
+                let overflow_start = self
+                    .line_buffer
+                    .char_indices()
+                    .nth(max)
+                    .map_or(self.line_buffer.len(), |(pos, _)| pos);
+                (overflow_start, self.line_buffer.len() - overflow_start)
+            }
             ErrorKind::TrailingWhitespace
             | ErrorKind::DeprecatedAttr
             | ErrorKind::BadAttr
             | ErrorKind::LostComment => {
-                let trailing_ws_start = self
-                    .line_buffer
-                    .rfind(|c: char| !c.is_whitespace())
-                    .map(|pos| pos + 1)
-                    .unwrap_or(0);
+                let trailing_ws_start = self.line_buffer.trim_end().len();
                 (
                     trailing_ws_start,
                     self.line_buffer.len() - trailing_ws_start,
